@@ -309,13 +309,19 @@ def eval_context(case):
     interop part under the format's own key) are skipped here"""
     from libpass.context import CryptContext
 
-    schemes, seed = case["schemes"], case.get("seed", 0)
-    name = ">".join(schemes)
+    labels, seed = case["schemes"], case.get("seed", 0)
+    name = ">".join(labels)
     comp = "context"
     out = []
     hashers = {f: lp_hasher(f, BASE_ROUNDS[KIND[f]]) for f in FORMATS}
+    # 'fmt@k' = a second hasher of the same format with another cost (a cost migration lists both)
+    listed_hashers = []
+    for lab in labels:
+        f, _, k = lab.partition("@")
+        listed_hashers.append(hashers[f] if not k else lp_hasher(f, BASE_ROUNDS[KIND[f]] + int(k)))
+    schemes = [lab.partition("@")[0] for lab in labels]
     try:
-        C = CryptContext([hashers[f] for f in schemes])
+        C = CryptContext(listed_hashers)
     except Exception as e:  # noqa: BLE001
         return [(f"C20|{comp}|construct:raises:{_exc(e)}", f"CryptContext({name}) raised {e!r}")]
     first = schemes[0]
@@ -549,6 +555,12 @@ def run(ctx):
     for n in (1, 2, 3):
         for lst in itertools.permutations(FORMATS, n):
             cases.append({"part": "context", "schemes": list(lst), "seed": seed})
+            n_ctx += 1
+    # lists naming the same format twice (two costs of one format; with and without another format in between)
+    for f in FORMATS:
+        g = FORMATS[(FORMATS.index(f) + 1) % len(FORMATS)]
+        for lst in ([f, f + "@1"], [f + "@1", f], [f, g, f + "@1"], [g, f, f + "@1"]):
+            cases.append({"part": "context", "schemes": lst, "seed": seed})
             n_ctx += 1
     ctx.log(f"{n_inter} interop cases, {n_id} identify cells, {n_ctx} context lists, {len(cases) - n_inter - n_id - n_ctx} fresh")
     shards = [cases[i::320] for i in range(320)]
